@@ -158,7 +158,7 @@ func backSlice(v ssa.Value) *slice {
 						idx = i
 					}
 				}
-				for _, site := range gCallSitesOf[h] {
+				for _, site := range sitesOf(h) {
 					if args := site.Common().Args; idx >= 0 && idx < len(args) {
 						rec(args[idx])
 					}
@@ -274,9 +274,41 @@ func (s *slice) hasConstVal(val string) bool {
 
 // accessPath renders where a value lives: "param.field.field" following loads, FieldAddr/Field and
 // single-origin phis; "" if it is not a pure access path.
+var gAccessDepth int
+
 func accessPath(v ssa.Value) string {
 	switch x := v.(type) {
 	case *ssa.Parameter:
+		// a parameter of a helper the reference tree does not have lives where the arguments of its call
+		// sites (in the current binding context) live, when they all live in the same place
+		if h := x.Parent(); h != nil && h.Parent() == nil && gNewFuncs[h] && gAccessDepth < 4 {
+			idx := -1
+			for i, q := range h.Params {
+				if q == x {
+					idx = i
+				}
+			}
+			path, n := "", 0
+			gAccessDepth++
+			for _, cs := range sitesOf(h) {
+				args := cs.Common().Args
+				if cs.Common().StaticCallee() != h || idx < 0 || idx >= len(args) {
+					path, n = "", -1
+					break
+				}
+				q := accessPath(args[idx])
+				if q == "" || (n > 0 && q != path) {
+					path, n = "", -1
+					break
+				}
+				path = q
+				n++
+			}
+			gAccessDepth--
+			if n > 0 && path != "" {
+				return path
+			}
+		}
 		return x.Name()
 	case *ssa.FreeVar:
 		r := rootCell(x)
@@ -344,6 +376,14 @@ func accessPath(v ssa.Value) string {
 		return p
 	case *ssa.Global:
 		return "global:" + x.Name()
+	case *ssa.Extract:
+		// a result of a call of a helper the reference tree does not have (the object a phase helper hands
+		// back): named by the call, so that two uses of the same result are the same place
+		if cl, ok := x.Tuple.(*ssa.Call); ok {
+			if h := cl.Call.StaticCallee(); h != nil && gNewFuncs[h] && cl.Parent() != nil {
+				return fmt.Sprintf("result:%s:%s#%d", cl.Parent().Name(), cl.Name(), x.Index)
+			}
+		}
 	}
 	return ""
 }
@@ -435,8 +475,8 @@ func affine(v ssa.Value) (affineExpr, bool) {
 		return affine(x.X)
 	case *ssa.Parameter:
 		// a parameter of a helper the reference tree does not have, called from one place: the argument
-		if h := x.Parent(); h != nil && h.Parent() == nil && gNewFuncs[h] && len(gCallSitesOf[h]) == 1 {
-			if cs := gCallSitesOf[h][0]; cs.Common().StaticCallee() == h {
+		if h := x.Parent(); h != nil && h.Parent() == nil && gNewFuncs[h] && len(sitesOf(h)) == 1 {
+			if cs := sitesOf(h)[0]; cs.Common().StaticCallee() == h {
 				for i, q := range h.Params {
 					if q == x && i < len(cs.Common().Args) {
 						return affine(cs.Common().Args[i])
